@@ -383,6 +383,15 @@ def run_case(case):
             model.__enter__()
             model.reactions[1].upper_bound = 900       # something of the user's own on the undo stack
             model.objective_direction = model.objective_direction
+        if case.get("stale"):
+            try:
+                sol0 = model.optimize()
+                carrying = [r for r in model.reactions if sol0.status == "optimal" and abs(sol0.fluxes[r.id]) > 1e-9
+                            and r.objective_coefficient == 0]
+                if carrying:
+                    carrying[len(carrying) // 2].knock_out()
+            except Exception:  # noqa
+                pass
         before = obsmodel.observe(model)
         h.n, h.events, h.target = 0, [], model
         h.k, h.mode = (case["fault"] if case["fault"] else (None, None))
@@ -486,6 +495,10 @@ def make_cases(rng, tier, A, specs):
                 continue
             for ctx in (False, True):
                 cases.append({"spec": s, "analysis": a, "processes": 1, "ctx": ctx, "fault": None, "repeat": True})
+            if tier == "thorough" or rng.random() < 0.35:
+                # the solver still holds the optimum of an EARLIER state of the model (optimised, then edited)
+                cases.append({"spec": s, "analysis": a, "processes": 1, "ctx": False, "fault": None, "repeat": True,
+                              "stale": True})
             if A[a][1] and (tier == "thorough" or rng.random() < 0.25):
                 cases.append({"spec": s, "analysis": a, "processes": 2, "ctx": rng.random() < 0.5, "fault": None,
                               "repeat": False})
